@@ -84,6 +84,16 @@ fn run_cfg(cx: &mut CaseCx, case: &Value) {
     }
     let sh: Vec<Share> = sel.iter().map(|&i| shares[i].clone()).collect();
     let res = rec(&sh);
+    if sel.len() <= t as usize + 1 && ml <= 200 {
+      // the same shares behind lazy iterator adapters
+      let lazy = guard(|| adss::recover(sh.iter().filter(|_| true)).map(|c| c.get_message()).map_err(|e| e.to_string()));
+      let lazy2 = guard(|| adss::recover(sh.iter().skip_while(|_| false).chain(std::iter::empty())).map(|c| c.get_message()).map_err(|e| e.to_string()));
+      cx.eval();
+      let r0 = res.as_ref().map(|r| r.as_ref().map(|c| c.get_message()).ok());
+      if lazy.as_ref().map(|r| r.clone().ok()) != r0 || lazy2.as_ref().map(|r| r.clone().ok()) != r0 {
+        cx.viol("C16/recover-depends-on-iterator-shape", "recover gives a different result for the same shares handed over behind filter / skip_while / chain adapters", d(json!({"sel": sel})));
+      }
+    }
     cx.eval();
     cx.count("states", 1);
     cx.count("transitions", 1);
@@ -182,6 +192,34 @@ fn run_cfg(cx: &mut CaseCx, case: &Value) {
   cx.sample(json!({"t": t, "message_len": ml, "coins_len": rl, "shares": k, "share_len": shares[0].to_bytes().len()}));
 }
 
+
+
+/// every (message length, coin length) pair of a triangle: share and recover
+fn run_length_square(cx: &mut CaseCx, case: &Value) {
+  let ml = case["ml"].as_u64().unwrap() as usize;
+  let t = 2u32;
+  for rl in 0..=(340usize.saturating_sub(ml)).min(200) {
+    let m = prbytes(ml as u64 * 7 + 1, ml);
+    let r = prbytes(rl as u64 * 13 + 2, rl);
+    let c = Commune::new(t, m.clone(), r.clone(), None);
+    let s1 = share_of(&c);
+    let s2 = share_of(&Commune::new(t, m.clone(), r.clone(), None));
+    cx.eval();
+    cx.count("states", 1);
+    cx.count("transitions", 1);
+    cx.nontrivial(((ml as u64) << 16) | rl as u64);
+    match (s1, s2) {
+      (Ok(a), Ok(b)) => match rec(&[a, b]) {
+        Ok(Ok(c2)) if c2.get_message() == m => cx.count("ok", 1),
+        other => {
+          cx.viol("C16/recover-failed", format!("message of {} bytes and coins of {} bytes (sum {}): two shares of independent invocations do not recover: {:?}", ml, rl, ml + rl, other.map(|r| r.map(|_| ()))), json!({"t": t, "message_len": ml, "coins_len": rl}));
+          return;
+        }
+      },
+      _ => cx.viol("C16/share-failed", "share failed", json!({"message_len": ml, "coins_len": rl})),
+    }
+  }
+}
 
 /// shares at crafted evaluation points (129-bit field: x and x + 2^128 are different points)
 fn run_crafted_points(cx: &mut CaseCx, case: &Value) {
@@ -341,6 +379,13 @@ pub fn spec() -> PropSpec {
         },
         run: run_cfg,
         min_counts: &[("ok", 1000), ("err", 100), ("mixed_old_new_ok", 100), ("replay_identical", 50)],
+      },
+      Check {
+        name: "length-square",
+        rule: "EVERY (message length, coin length) pair with message length 0..=200, coin length 0..=200 and sum <= 340 (t = 2): two independent shares recover the message (a cipher/MAC path that depends on the two lengths together)",
+        gen: |_| (0..=200u64).map(|ml| json!({"ml": ml})).collect(),
+        run: run_length_square,
+        min_counts: &[("ok", 30_000)],
       },
       Check {
         name: "crafted-points",
